@@ -496,7 +496,7 @@ def peep_special_cases(rep):
                                     "rules/frozen/c04_peep_special.json" % ", ".join(x[len("FOAM_BVal_"):] for x in new))
 
 
-def run(tier, only=None):
+def run(tier, only=None, library=False):
     rep = common.Report("C04", tier, EXPLANATION)
     f_foam = common.extract("foam.c")
     f_cfold = common.extract("of_cfold.c", trees=["cfoldBCall"])
@@ -844,7 +844,8 @@ def run(tier, only=None):
         if not sites:
             rep.ok("B7", "no-narrow-shift:" + unit, nontrivial=False)
     carry_steps(rep)
-    peep_special_cases(rep)
+    if not library:                 # an unconfirmed hand-written rewrite is C04's refusal, not its users'
+        peep_special_cases(rep)
     from . import immed
     immed.report(rep, "B9", floor=8)      # conversions BInt -> machine integer outside the table: bintSmall only on immediates
     rep.floor("builtins with at least two comparable copies", compared, 150)
